@@ -8,12 +8,15 @@ import sys, json, subprocess
 sys.path.insert(0, "/verif")
 from lyverif import facts
 names = set()
+sigs = {}
 for cfg in ("default", "nan_boxing", "gc_stress"):
     F = facts.load(cfg)
     for fn in F.all_fns():
         if fn.kind in ("Fn", "AssocFn"):
             names.add(fn.path)
+            e = sigs.setdefault(fn.path, [facts.fn_sig(fn), []])
+            e[1].append(cfg)
 head = subprocess.run(["git", "-C", "/repo", "rev-parse", "--short", "HEAD"], capture_output=True, text=True).stdout.strip()
 S = facts.load("syn")
-json.dump({"repo_head": head, "fns": sorted(names), "syn_fns": sorted(facts.syn_fn_keys(S))}, open("/verif/lyverif/pinned_fns.json", "w"), indent=0)
+json.dump({"repo_head": head, "fns": sorted(names), "sigs": sigs, "syn_fns": sorted(facts.syn_fn_keys(S)), "syn_sigs": facts.syn_fn_sigs(S)}, open("/verif/lyverif/pinned_fns.json", "w"), indent=0)
 print("pinned", len(names), "functions at", head)
